@@ -13,9 +13,9 @@ CHECKS = {
         rule=("rapid-generated cases: topology (direct|demux|proxy) x transport mode (by-ref|serialising) x 1..64 concurrent unary calls "
               "with payloads from {empty, literal, random, zero, 0xFF, protobuf-looking, 16-64KiB}; request writes, handler completion and reply writes "
               "are released one at a time by a drawn tape. Oracle: reply == sha256(own request)||len||pad, handler ran exactly once with the caller's bytes, "
-              "one request and one response envelope per id on the tap. Non-trivial = (>=2 calls and reply order != request order on the wire) or a request that is empty or >=16KiB; "
+              "one request and one response envelope per id on the tap; plus a smoke job (TestC01Net) running 1..16 concurrent unary calls over a real loopback WebSocket pair and over two GoatOverHttp endpoints (wall-clock budget, overrun = inconclusive). Non-trivial = (>=2 calls and reply order != request order on the wire) or a request that is empty or >=16KiB; "
               "distinct = distinct canonical case JSON (64-bit hash)."),
-        jobs=[dict(test="TestC01", quick=1920, thorough=24000)],
+        jobs=[dict(test="TestC01", quick=1920, thorough=24000), dict(test="TestC01Net", quick=64, thorough=1000, shards=4)],
         floors={"reordered=true": 0.15, "topo=proxy": 0.1, "topo=demux": 0.1, "ser=true": 0.25},
         assumptions=COMMON_ASSUMPTIONS,
     ),
